@@ -114,7 +114,8 @@ def _skey(n):
 
 
 # ---- pattern space -------------------------------------------------------------------------------------
-RES = ["a", "a$", "b|ab", ".*", "", "a b", "a  b$", "\\d", "\\\\d", "a\\\\", 'a\\"', '\\"']  # incl. \d (a digit), \\d (backslash + d), a\\ (ends in an escaped backslash)
+RES = ["a", "a$", "b|ab", ".*", "", "a b", "a  b$", "\\d", "\\\\d", "a\\\\", 'a\\"', '\\"',  # incl. \d (a digit), \\d (backslash + d), a\\ (ends in an escaped backslash)
+       "ab?", "ab*$", "a{0}b", "7?x"]   # a literal-looking head that the value need not start with (optional / repeated / zero-times characters)
 # incl. a class listed together with its own subclass (both orders) and a repeated class
 CLASSES = ["*", ("PA",), ("PB",), ("PC",), ("PA", "PC"), ("PC", "PB"), ("PA", "PB"), ("PB", "PA"), ("PB", "PC", "PA"), ("PA", "PA")]
 
